@@ -1146,7 +1146,7 @@ def T_branch(ex, n, a):
     selfp = parse_name(n)[0]
     if selfp.startswith('std::result::Result') or selfp.startswith('core::result::Result'):
         return cf_continue(v.fields[0]) if v.variant == 0 else cf_break(err(v.fields[0]))
-    if 'Option' in selfp:
+    if re.match(r'(std|core)::option::Option<', selfp):
         return cf_continue(v.fields[0]) if v.variant == 1 else cf_break(none())
     if 'Poll' in selfp:
         return NotImplemented
@@ -1157,7 +1157,8 @@ def T_from_residual(ex, n, a):
     v = a[0]
     if not isinstance(v, Agg): return NotImplemented
     selfp = parse_name(n)[0]
-    if 'Result' in selfp and 'Poll' not in selfp:
+    if re.match(r'(std|core)::result::Result<', selfp):
+        if not v.fields: raise Unmodelled(f'from_residual of {v!r} in {n}')
         e = v.fields[0]
         conv = getattr(ex, 'error_from', None)
         return err(conv(ex, n, e) if conv else e)
